@@ -73,7 +73,7 @@ Allometry(P, x, z, t) == RMul(P, RPow(RDiv(x, z), t))
 \* ---- error models:  e1 = the proportional epsilon (or the only one), e2 = the additive one
 ErrKinds == {"add", "prop", "comb"}
 ErrY(kind, trans, f, e1, e2) ==
-    IF trans = "none"
+    IF trans \in {"none", "nozp"}
     THEN CASE kind = "add"  -> RAdd(f, e1)
            [] kind = "prop" -> RAdd(f, RMul(f, e1))
            [] kind = "comb" -> RAdd(f, RAdd(RMul(f, e1), e2))
@@ -170,9 +170,11 @@ JudgeTransform(e) ==
          Pairs(e.frame), None, IF e.tr = "tdist" THEN f ELSE None)
 
 \* -- add_allometry: pts [x, z, t, b, a]
-JudgeAllometry(e, noop) ==
+\* must = the volume parameters the machine expects to be scaled: each of them got an exponent (e.targets)
+JudgeAllometry(e, noop, must) ==
     IF noop THEN V(Unchanged(e), None, Pairs(e.frame), None, None)
-    ELSE V(Combine({Eq(e.pts[i].a, Allometry(e.pts[i].b, e.pts[i].x, e.pts[i].z, e.pts[i].t)) : i \in 1..Len(e.pts)}),
+    ELSE V(Combine({Eq(e.pts[i].a, Allometry(e.pts[i].b, e.pts[i].x, e.pts[i].z, e.pts[i].t)) : i \in 1..Len(e.pts)}
+                   \cup {IF must \subseteq SeqSet(e.targets) THEN "ok" ELSE "bad"}),
            Combine({EqLL(e.pts[i].a, e.pts[i].b) : i \in {k \in 1..Len(e.pts) : e.pts[k].x = e.pts[k].z}}),
            Pairs(e.frame), None, None)
 
